@@ -20,7 +20,7 @@ func agents() []*coresim.Agent {
 	}
 }
 
-var cfg = vrt.Config{Preempt: coresim.InterComponent, FreeSwitchCost: true, Horizon: 30 * time.Minute}
+var cfg = vrt.Config{Preempt: coresim.InterComponent, NoLockPoints: true, FreeSwitchCost: true, Horizon: 30 * time.Minute}
 
 // ---- leftovers oracle ---------------------------------------------------------------
 
